@@ -24,5 +24,5 @@ def replay(rp):
 
 TECHNIQUE = "Coq/Coquelicot proofs that the translated scalar rules are the true derivatives + generic broadcasting/adjointness theorems; translator regenerated from /repo each run; exact/numeric Jacobian oracle over the call-configuration space"
 DESIGN_REF = "DESIGN.md 4.1"
-LEVEL_TEXT = "Family-partial proof: see Props/C01.v for the proved set (ufunc-style rules for all shapes/broadcasts); other primitives are examined by the implementation oracle and not claimed as proved."
+LEVEL_TEXT = "Family-partial proof: see Props/C01.v for the proved set (ufunc-style rules for all shapes/broadcasts, sum/mean over any axes, dot/matmul on vectors and matrices); other primitives are examined by the implementation oracle and not claimed as proved."
 LEVEL_NOTE = "Trusted: Coq kernel; stdlib real-number axioms (sig_forall_dec, sig_not_dec, functional_extensionality_dep, classic) via Reals/Coquelicot; the translator; NumPy as the primal."
